@@ -328,9 +328,11 @@ def post_c05(ctx, parsed, res):
     timeout = world["sim"]["loop_timeout"]
     if res["outcome"] == "crash":
         if bundled:
+            kind = "other"
+            if "sum of the probability of children" in res["error"]:
+                kind = "conditional_child_probability_sum"
             ctx.violate("C05", "crash", f"simulate() raised {res['error']} at {res.get('crash_site')}",
-                        {"site": res.get("crash_site"), "exc": res["error"].split(":")[0],
-                         "msg": res["error"][:80]})
+                        {"site": res.get("crash_site"), "exc": res["error"].split(":")[0], "kind": kind})
         return
     if res["outcome"] != "ended":
         return
